@@ -76,16 +76,21 @@ pub fn c04_case(ctx: &mut Ctx, rng: &mut Rng, stage: &str) {
     };
     // ... the model is a fresh worker, given only the sentence, of a second tokenizer built from the same files
     // whose options were set once
-    let plain = match prepare(&case) {
-        Prep::Ready { dict, .. } => match guarded(move || Tokenizer::new(dict).ignore_space(o.ignore_space).map(|t| t.max_grouping_len(o.mgl)).map_err(|e| e.to_string())) {
-            Ok(Ok(t)) => t,
+    // (under Miri a second dictionary build costs minutes: there the model is a fresh worker of the same tokenizer)
+    let plain = if miri {
+        None
+    } else {
+        match prepare(&case) {
+            Prep::Ready { dict, .. } => match guarded(move || Tokenizer::new(dict).ignore_space(o.ignore_space).map(|t| t.max_grouping_len(o.mgl)).map_err(|e| e.to_string())) {
+                Ok(Ok(t)) => Some(t),
+                _ => return,
+            },
             _ => return,
-        },
-        _ => return,
+        }
     };
     let mut expected: Vec<Option<Vec<Tok>>> = vec![];
     for s in &case.sentences {
-        let mut w = plain.new_worker();
+        let mut w = plain.as_ref().unwrap_or(&tok).new_worker();
         expected.push(tokenize(&mut w, s).ok());
     }
     if expected.iter().any(|e| e.is_none()) {
